@@ -22,13 +22,13 @@ MANIFEST = dict(
     ref='3/C19')
 
 TRANS = [None, '', 'ab', 'ba', 'b', 'bab']
-LOGITS = ['ab', 'ba', 'diffuse', 'bb', 'perchar', 'bab_leaky']
+LOGITS = ['ab', 'ba', 'diffuse', 'bb', 'perchar', 'bab_leaky', 'perchar_off']
 ORDERS = [['a', 'b', '​'], ['b', 'a', '​']]
 BOUNDS = {'quick': dict(engines=3, three_engine_variants=26, two_line_variants=12),
           'thorough': dict(engines=3, three_engine_variants=10 ** 6, two_line_variants=20)}
 BOUNDS['replay'] = BOUNDS['quick']
 VARIANTS = [(t, l, o) for t in range(len(TRANS)) for l in range(len(LOGITS)) for o in range(2)
-            if not (LOGITS[l] == 'perchar' and not TRANS[t])]
+            if not (LOGITS[l] in ('perchar', 'perchar_off') and not TRANS[t])]
 
 
 def setup(tier):
@@ -108,6 +108,10 @@ def build_logits(kind, order, trans):
         for i, ch in enumerate(trans):
             r = [0.2, 0.1, -0.3]
             r[col[ch]] = 2.0 + 0.5 * i
+            if kind == 'perchar_off' and i == 0:
+                # the transcription is NOT the frame-wise arg-max here (as after beam search / LM rescoring)
+                r[col[ch]] = 0.6
+                r[(col[ch] + 1) % 2] = 1.9
             M.append(r)
     return np.asarray(M, dtype=np.float64)
 
@@ -240,6 +244,20 @@ def check_case(case, ctx):
             if vals[-1] == vals[-2]:
                 ctx.tag('exact-tie-at-the-top')
     ctx.outcome(tuple(outcome))
+    # incremental merging (a merged layout is merged again with the next engine) gives what merging all at once gives
+    if len(engines) == 3:
+        inc = [build_layout(e) for e in engines]
+        mor.merge_layouts(inc[:2])
+        mor.merge_layouts([inc[0], inc[2]])
+        ctx.executed(2)
+        for x, y in zip(inc[0].lines_iterator(), merged.lines_iterator()):
+            if x.transcription != y.transcription or list(x.characters) != list(y.characters) or x.logits.shape != y.logits.shape or \
+                    abs(x.logits - y.logits).max() != 0:
+                ctx.violation('keeps-most-confident-engine', f'{K}/incremental-merge-differs',
+                              f'engines {engines}: merging (0,1) and then the result with 2 keeps {x.transcription!r} for line {x.id}, merging all three '
+                              f'at once keeps {y.transcription!r}')
+                return
+        ctx.tag('incremental-merges')
     # merging a result with itself changes nothing
     if len(engines) == 1:
         a = build_layout(engines[0])
@@ -263,5 +281,5 @@ def describe(tier):
                                                'variants': len(VARIANTS)},
         'assumptions': ['the per-character confidence is the documented one (reference implementation in the check)',
                         'engines whose line has no characters (None / empty transcription) have no confidence'],
-        'min_nontrivial': 100, 'required_tags': ['later-engine-wins', 'exact-tie-at-the-top'],
+        'min_nontrivial': 100, 'required_tags': ['later-engine-wins', 'exact-tie-at-the-top', 'incremental-merges'],
     }
